@@ -16,6 +16,7 @@ import (
 	"runtime/debug"
 	"strings"
 	"sync"
+	"sync/atomic"
 
 	"github.com/sirupsen/logrus"
 
@@ -146,6 +147,25 @@ type capture struct {
 	texts   []string // messages and field values seen (kept only while collecting a baseline)
 	keep    bool
 	lines   []string // formatted output lines (kept only for the unparseable-token check)
+	// burst workload: number of queue-full warnings of the query writer seen since watchOverflow(sent) was called
+	overflow, firstOverflowAtSent int64
+	sent                          *int64
+}
+
+// watchOverflow starts counting the query writer's queue-full warnings (sent = counter of statements sent so far, read when
+// the first warning arrives); called with nil it stops and returns (warnings seen, statements sent at the first warning).
+func (c *capture) watchOverflow(sent *int64) (n, firstAt int64) {
+	c.mu.Lock()
+	defer c.mu.Unlock()
+	n, firstAt = c.overflow, c.firstOverflowAtSent
+	c.overflow, c.firstOverflowAtSent, c.sent = 0, 0, sent
+	return
+}
+
+// isQueueFullWarning recognises the writer's queue-full entry: a WARNING of the logger that carries
+// internal_object=querywriter (or, should the field be renamed, the message as worded today).
+func isQueueFullWarning(e *logrus.Entry) bool {
+	return e.Level == logrus.WarnLevel && (fmt.Sprint(e.Data["internal_object"]) == "querywriter" || strings.HasPrefix(e.Message, "Too much input queries"))
 }
 
 func (c *capture) Levels() []logrus.Level { return logrus.AllLevels }
@@ -166,6 +186,11 @@ func (c *capture) Fire(e *logrus.Entry) error {
 	c.entries++
 	if c.keep {
 		c.texts = append(c.texts, e.Message)
+	}
+	if c.sent != nil && isQueueFullWarning(e) {
+		if c.overflow++; c.overflow == 1 {
+			c.firstOverflowAtSent = atomic.LoadInt64(c.sent)
+		}
 	}
 	c.mu.Unlock()
 	tpl := messageTemplate(e.Message)
@@ -369,6 +394,9 @@ func Run(r *ev.Run) {
 	r.RequireSetAtLeast("log_capture_classes", 100)
 	r.RequireSetAtLeast("judged_literal_kinds_checked", 9)
 	r.RequireSetAtLeast("slots_checked", 30)
+	// the burst workload counts only if the writer's queue really overflowed (its warning was captured), per dialect
+	r.RequireAtLeast("bursts_that_overflowed_the_writer_queue:parse_errors_log", int64(r.Pick(2, 4)))
+	r.RequireAtLeast("bursts_that_overflowed_the_writer_queue:query_capture", int64(r.Pick(1, 2)))
 	if ProxyLayer != nil {
 		ProxyLayer(r)
 	}
@@ -443,6 +471,11 @@ func (m *monitor) runDialect(d sqlgen.Dialect, dir string) {
 		done += k
 	}
 	m.harvestedInvalid(d, censors)
+	di := 0
+	if d == sqlgen.PostgreSQL {
+		di = 1
+	}
+	m.burstPhase(d, di, dir)
 }
 
 // fixedShapes are parseable statements outside the generator's DML grammar that carry literals.
